@@ -66,6 +66,13 @@ def gen_tie(work, res, only=("gen_health_check_locked", "gen_next_target")):
     if p.returncode != 0:
         cov["status"] = "translator does not build"
         return False, "harness/gofacts does not build:\n" + p.stdout[-2000:]
+    # the translator's own tests: known forms translate to the expected Gallina, what it cannot express is declined
+    p = subprocess.run(["go", "test", "-count=1", "."], cwd=GOFACTS, env=go_env(), stdout=subprocess.PIPE, stderr=subprocess.STDOUT,
+                       text=True, timeout=600)
+    cov["translator_selftest"] = "ok" if p.returncode == 0 else p.stdout[-500:]
+    if p.returncode != 0:
+        cov["status"] = "translator self-test fails"
+        return False, "harness/gofacts self-test fails:\n" + p.stdout[-2000:]
     env = go_env()
     env["VERIF_REPO"] = REPO
     p = subprocess.run([exe, os.path.join(d, "GenFacts.v"), os.path.join(d, "report.json")], env=env, stdout=subprocess.PIPE,
